@@ -16,3 +16,7 @@ pub mod c19;
 pub mod c18;
 #[cfg(kani)]
 pub mod c11;
+#[cfg(kani)]
+pub mod c10;
+#[cfg(kani)]
+pub mod c12;
